@@ -351,6 +351,10 @@ structure FmmIn where
   fix4 : Bool := true
   fix5 : Bool := true
   fix9 : Bool := true
+  /-- `true` (default, what the driver uses) = /repo after commit d043511: the batch rules require the OTHER
+      operand to have rank `len(perm)`.  `false` = the rule before that commit (finding C19-F15), kept only for
+      the `…_prefix_refuted` theorem. -/
+  fix15 : Bool := true
 
 def flip (v : Option Int) : Option Int := some (1 - v.getD 0)
 
@@ -404,6 +408,7 @@ def fmm (i : FmmIn) : String :=
       | some p =>
         if p.isEmpty then "count=0" else
         let n := p.length
+        if i.fix15 && (if pos1 then i.yRank else i.xRank) != n then "count=0" else
         if i.fix4 && n < 3 then "count=0" else
         let flipB (x : FAttrs) := if pos1 then { x with transBatchA := flip x.transBatchA } else { x with transBatchB := flip x.transBatchB }
         let flipT (x : FAttrs) := if pos1 then { x with transA := flip x.transA } else { x with transB := flip x.transB }
